@@ -813,7 +813,7 @@ class FlexWindow(Strategy):
                             # already discharged
                             break
                         if cur_needed_power > 0:
-                            power = min(cur_needed_power, max_discharge_power)
+                            power = min(cur_needed_power, max_discharge_power, cs.max_power)
                             sim_vehicle.battery.unload(
                                 self.interval, max_power=power, target_soc=discharge_limit
                             )["avg_power"]
@@ -828,7 +828,8 @@ class FlexWindow(Strategy):
                 if needed_power < 0:
                     discharge = 0
                 else:
-                    power = min(needed_power, max_discharge_power)
+                    # discharge power is limited by charging station as well
+                    power = min(needed_power, max_discharge_power, cs.max_power)
                     discharge = vehicle.battery.unload(
                         self.interval, max_power=power, target_soc=discharge_limit)["avg_power"]
                 commands[cs_id] = gc.add_load(cs_id, -discharge)
